@@ -287,7 +287,9 @@ def oracle(sc, res, obs):
             return "hook saw BUMPVER_OLD_VERSION=%r BUMPVER_NEW_VERSION=%r" % (old, new)
     if ("pre_hook" in tr or "post_hook" in tr) and not commit_i and sc["pre"] != "fail" and sc["fail_at"] is None:
         return "hook ran without a commit: %r" % tr
-    if sc["dirty"] and (not sc["allow_dirty"] or sc.get("dirty_pattern_file")) and ("rewrite" in tr or muts) and "status" in tr:
+    # (a run that COMMITS has a usable VCS and commit in force: the dirty check is a step it must have passed, whether or not the status
+    #  command shows in the trace)
+    if sc["dirty"] and (not sc["allow_dirty"] or sc.get("dirty_pattern_file")) and ((("rewrite" in tr or muts) and "status" in tr) or commit_i):
         return "dirty tree (%s, allow_dirty=%s) but the run went on: %r" % ("a file with a version pattern" if sc.get("dirty_pattern_file") else "another file", sc["allow_dirty"], tr)
     return None
 
